@@ -14,7 +14,9 @@ LEVEL = "exploration"
 RULE = ("part 'faults': ProgGen programs (no failing serializers) run single-threaded with one healthy recording destination "
         "and 0-3 masked faulty destinations whose failure reports are inserted into the same trees; part 'async': coroutine "
         "programs under the await-point scheduler; part 'threads': multi-thread programs under OS scheduling with "
-        "switchinterval 1e-6. The healthy destination's tape (plus serialize_task_id reservation events) must satisfy: "
+        "switchinterval 1e-6; part 'extractors': programs (incl. finish() inside the action's own context() and blocks entered under another "
+        "action than they were created under) with exception extractors of which some raise, so eliot:traceback messages are inserted next "
+        "to end messages. The healthy destination's tape (plus serialize_task_id reservation events) must satisfy: "
         "well-formed metadata, run-wide unique (task_uuid, task_level), positions exactly 1..n per action with start at 1 "
         "and end at n, first uses in increasing order, end message last. non-trivial = >=1 destination-failure report "
         "inserted into a tree of depth >=2, or >=2 concurrently active contexts; distinct by hash of (program shape, masks)")
@@ -27,11 +29,10 @@ BATCH = 100
 def plan(tier, seed):
     n = 20000 if tier == "quick" else 200000
     specs = [{"part": "faults", "seed": seed, "lo": i, "hi": min(n, i + BATCH), "tier": tier} for i in range(0, n, BATCH)]
-    try:
-        from vf import conc
-        specs += conc.c02_specs(tier, seed)
-    except ImportError:
-        pass
+    from vf import conc
+    specs += conc.c02_specs(tier, seed)
+    m = 3000 if tier == "quick" else 30000
+    specs += [{"part": "extractors", "seed": seed, "i": i} for i in range(m)]
     return specs
 
 
@@ -90,8 +91,57 @@ def one_faults(seed, i, tier, res):
                                   "detail": {"case": i, "problems": problems[:10], "program": prog, "masks": masks}})
 
 
+class _ExtractorBoom(Exception):
+    pass
+
+
+def one_extractors(spec, res):
+    """Exception extractors (some raising) add eliot:traceback messages next to end messages: placement must still hold."""
+    from eliot import register_exception_extractor
+    from vf import excs
+    rng = random.Random("%s:C02:x:%d" % (spec["seed"], spec["i"]))
+    nraise = 0
+    for name in ["Exception", "OSError", "LookupError", "ValueError", "KeyError", "UserError", "MidUserError", "RuntimeError", "BaseException"]:
+        if rng.random() < 0.4:
+            raising = rng.random() < 0.6
+            nraise += raising
+            cls = dict(excs.POOL, Exception=Exception, LookupError=LookupError, BaseException=BaseException)[name]
+
+            def ext(e, raising=raising, name=name):
+                if raising:
+                    raise _ExtractorBoom("extractor for %s failed" % name)
+                return {"ext": name}
+            register_exception_extractor(cls, ext)
+    g = gen.ProgGen(rng, max_depth=rng.choice([2, 3, 4]), max_nodes=20, value_depth=0, fail_p=0.6, allow_remote=rng.random() < 0.3,
+                    extra_styles=("ctx_finish_inside", "pre_created"))
+    prog = g.program()
+    tape = Tape()
+    rec = Recorder(tape, "rec")
+    add_destinations(rec)
+    it = Interp(tape=tape)
+    try:
+        it.run(prog)
+    finally:
+        remove_destination(rec)
+    entries = tape_entries(tape)
+    problems = oracles.check_placement(entries)
+    tbs = sum(1 for m in tape.msgs("rec") if m.get("message_type") == "eliot:traceback" and "extractor for" in str(m.get("reason")))
+    c = res["counters"]
+    c["extractor_runs"] = c.get("extractor_runs", 0) + 1
+    c["extractor_failure_tracebacks_placed"] = c.get("extractor_failure_tracebacks_placed", 0) + tbs
+    c["messages_checked"] = c.get("messages_checked", 0) + len(entries)
+    res["evals"] += 1
+    if tbs:
+        res["nontrivial"].append(h(["x", gen.prog_shape(prog), nraise]))
+    if problems:
+        res["violations"].append({"msg": problems[0], "mech": None, "detail": {"part": "extractors", "case": spec["i"], "problems": problems[:8], "program": prog}})
+
+
 def run_case(spec):
     res = {"evals": 0, "nontrivial": [], "counters": {}, "violations": [], "sample": None}
+    if spec["part"] == "extractors":
+        one_extractors(spec, res)
+        return res
     if spec["part"] == "faults":
         for i in range(spec["lo"], spec["hi"]):
             one_faults(spec["seed"], i, spec["tier"], res)
@@ -105,4 +155,6 @@ def finalize(agg, tier):
     c = agg["counters"]
     if c.get("failure_reports_inside_actions", 0) < 50:
         return "fewer than 50 failure reports landed inside actions"
+    if c.get("extractor_failure_tracebacks_placed", 0) < 50:
+        return "fewer than 50 extractor-failure tracebacks were placed"
     return None
